@@ -38,6 +38,10 @@ fn main() {
         scale_pct,
     };
     case::install_panic_hook();
+    if cfg!(miri) {
+        // Miri cannot execute the asm block of decode_direct_bits
+        lzma_rust2::verif::set_force_portable_direct_bits(true);
+    }
     match cmd {
         "run" => {
             let out: Box<dyn Write> = match arg(&args, "--out") {
@@ -91,6 +95,9 @@ fn main() {
             extra.push(("wall_s".into(), format!("{:.3}", t0.elapsed().as_secs_f64())));
             extra.push(("n_cases".into(), format!("{n}")));
             shard.finish(&extra);
+            // library worker threads end asynchronously after their object is dropped: wait for
+            // them (under Miri a worker that can never end shows up as a deadlock right here)
+            lzv::mt::wait_quiet();
         }
         "describe" => {
             let only: u64 = arg(&args, "--only").and_then(|s| s.parse().ok()).unwrap_or(0);
